@@ -237,6 +237,7 @@ def _arm(program: Dict[str, Any], plus: bool) -> Dict[str, Any]:
                     if not (rel.startswith("logs/") or rel.startswith("snap/") or rel.startswith("t2store/") or rel.startswith(".data/t2/")):
                         extra.append(rel)
             out["extra_files"] = sorted(extra)
+            out["sim_s"] = clock.sim_seconds()
     return out
 
 
@@ -341,7 +342,7 @@ def execute(program: Dict[str, Any]) -> Dict[str, Any]:
     nontrivial = bool(program.get("gates")) and a.get("norm_cfg") != b.get("norm_cfg") and any(
         ('"k_returned": 0' not in (a["logs"].get("t2.jsonl") or ""), '"pops": 0' not in (a["logs"].get("t1.jsonl") or "")))
     return {"violations": violations, "stats": stats, "faults": {}, "nontrivial": nontrivial, "key": E.jdigest(program),
-            "sim_s": 0.0, "log": E.jdigest([a.get("logs"), b.get("logs")])}
+            "sim_s": float(a.get("sim_s", 0.0)) + float(b.get("sim_s", 0.0)), "log": E.jdigest([a.get("logs"), b.get("logs")])}
 
 
 def _cfg_plus(program: Dict[str, Any]) -> Dict[str, Any]:
